@@ -5,7 +5,10 @@ natively through hook H1, scripted mock host, instrumented `Subtask` implementat
 ledger, checking allocator)  vs  m_async: exact trace equality in the cabi1/cabi2 modes (the harness is
 the executor), and the Lean spec side (SubtaskSpec monitor per call + legality of every host answer +
 ledger anomalies + leak/allocator errors) evaluated on the REAL traces of all three modes
-(cabi1, cabi2, export = the real `start_task`/`callback` executor)."""
+(cabi1, cabi2, export = the real `start_task`/`callback` executor); in the cabi modes the driver also replays the
+PROVED step function `CallSys.step` along the real trace, label by label (Async/Refine.lean).
+A trace is judged up to the point where a Rust panic starts (`@panic`); a script that kills the process is re-run
+alone in streaming mode so that its prefix is not lost."""
 import os, collections
 from vlib import run_lines, VERIF, sh
 import rtlib
@@ -21,6 +24,8 @@ def classify(cls):
         return "subtask-anomaly-" + "".join(ch for ch in reason.split(":")[0] if not ch.isdigit())
     if c.startswith("host:"):
         return "subtask-host-" + c[5:].split("(")[0]
+    if c.startswith("callsys:") or c.startswith("gsys:"): return "subtask-" + c.replace(":", "-")
+    if c.startswith("waitable:"): return "subtask-" + c.replace(":", "-")
     if c.startswith("leak"): return "subtask-leak"
     if c.startswith("alloc-errors"): return "subtask-alloc-errors"
     return "subtask-" + c
@@ -67,23 +72,26 @@ def run(c):
         reqs.append(rtlib.gen_subtask_script(c.rng, mode, 3, maxbody, stats))
     if not impl:
         return
-    iout = run_lines([impl, "script"], reqs, timeout=900)
-    itrace = [o.split("\t")[0] for o in iout]
+    runs = rtlib.run_scripts(impl, reqs)
+    itrace = [x.cmp() for x in runs]
     if not model:
-        for r, o in zip(reqs, itrace):
+        for r, x in zip(reqs, runs):
             c.evaluations += 1
-            if "!" in o or "panic" in o.split(" ") or not o.endswith("end:0:0"):
+            if "!" in x.prefix or (x.panicked and not rtlib.documented_panic(x)) or (not x.panicked and not x.prefix.endswith("end:0:0")):
                 c.spec_violation("subtask-anomaly", "ledger anomaly / panic / leak in a real trace (python fallback, model unavailable)",
-                                 {"request": r, "impl": o})
+                                 {"request": r, "impl": x.raw})
         return
-    mout = run_lines([model], [r + "\t" + o for r, o in zip(reqs, itrace)], timeout=900)
-    cab = [(r, o, m.split("\t")[0]) for r, o, m in zip(reqs, itrace, mout) if not r.startswith("export")]
+    # the spec side judges the trace up to the point where a panic started (what follows is unwinding)
+    mout = run_lines([model], [r + "\t" + x.judged() for r, x in zip(reqs, runs)], timeout=900)
+    cab = [(r, o, rtlib.model_cmp(m.split("\t")[0])) for r, o, m in zip(reqs, itrace, mout) if not r.startswith("export")]
     def nontriv(r, o): return "=pend" in o
     c.compare("subtask-cabi", [x[0] for x in cab], [x[1] for x in cab], [x[2] for x in cab], nontrivial=nontriv)
     shapes = set()
     events = collections.Counter()
     skipped = collections.Counter()
-    for idx, (r, o, m) in enumerate(zip(reqs, itrace, mout)):
+    c.cov["process_aborts_recovered_by_streaming"] = sum(1 for x in runs if x.aborted)
+    for r, x, m in zip(reqs, runs, mout):
+        o = x.prefix
         if r.startswith("export"):
             c.evaluations += 1
             c.corr.setdefault("subtask-export-spec-only", {"cases": 0, "mismatches": 0})["cases"] += 1
@@ -91,31 +99,31 @@ def run(c):
         for t in o.split(" "):
             name = t.split("(")[0].split("=")[0].rstrip("0123456789")
             events[name] += 1
-            if t.startswith("call") or t.startswith("cancel("):
+            if (t.startswith("call") or t.startswith("cancel(")) and "=" in t:
                 events[t.split("=")[0].rstrip("0123456789(),") + "=" + t.split("=")[1].split(":")[0]] += 1
         verdict = m.split("\t")[1] if "\t" in m else "spec=missing"
         if verdict == "spec=ok":
             continue
-        pmsg = (iout[idx].split("\t") + [""])[1]
-        if r.startswith("export") and "cannot sleep waiting only on Rust-originating events" in pmsg:
-            # the script suspends the task with nothing registered: the default-feature runtime documents
-            # this as unsupported (inter-task-wakeup feature needed) and panics; not a C21 input
-            skipped["export: task sleeps with no waitable registered (documented panic)"] += 1
-            continue
         fails = verdict.split(":", 1)[1].split(",") if verdict.startswith("spec=fail:") else ["missing@-"]
+        doc = rtlib.documented_panic(x) if r.startswith("export") else None
+        if doc:
+            # the script suspends the task with nothing registered: the default-feature runtime documents this
+            # as unsupported and panics.  The panic itself is not judged; everything BEFORE it is.
+            skipped[doc] += 1
+            fails = [f for f in fails if not f.startswith("panic@")]
         for k in sorted({classify(f) for f in fails}):
             fam = k.split("-")[1] if "-" in k else k
             c.spec_violation(k, WHAT.get(fam, "the real trace violates the C21 spec side (" + k + ")"),
-                             {"request": r, "impl": o, "model": m.split("\t")[0], "verdict": verdict,
-                              "panic": pmsg})
-    for r, o in list(zip(reqs, itrace))[ncorpus:ncorpus + 3]:
-        c.sample({"script": r, "impl_trace": o})
+                             {"request": r, "impl": x.raw, "judged_prefix": x.judged(), "model": m.split("\t")[0],
+                              "verdict": verdict, "panic": x.msg})
+    for r, x in list(zip(reqs, runs))[ncorpus:ncorpus + 3]:
+        c.sample({"script": r, "impl_trace": x.raw.split("\t")[0]})
     c.cov["input_distribution"] = dict(sorted(stats.items()))
     c.cov["trace_events"] = dict(sorted(events.items()))
     c.cov["distinct_traces"] = len(shapes)
-    c.cov["scripts_not_applicable"] = dict(skipped)
+    c.cov["documented_panics_prefix_judged"] = dict(skipped)
     c.cov["scripts"] = {"corpus": ncorpus, "seeded": n, "max_body": maxbody}
-    c.cov["search"] = ("SubtaskSpec.run/complete per call + Host.follow (legality of every recorded host answer) + ledger anomalies + "
+    c.cov["search"] = ("Refine.replayCall (CallSys.step driven along the real trace, cabi modes) + SubtaskSpec.run/complete per call + Host.follow (legality of every recorded host answer) + ledger anomalies + "
                        "leak/allocator errors, all evaluated by the Lean driver on the implementation's traces of every script of this run")
     c.assumptions += [
         "host rules are the Appendix-B transcription in Async/Host.lean (subtask part); `cancel traps while the waitable is in a set` is (R): taken from the runtime's comments",
